@@ -101,7 +101,12 @@ def generate(seed, tier="quick"):
     pool = gen_expression_pool(rnd, universe)
     entry = "deep" if rnd.random() < 0.8 else "level"
     if entry == "deep":
-        ahb = gen_validation_ahb(rnd, pool, depth=rnd.choice([1, 2, 2, 3]))
+        ahb = gen_validation_ahb(rnd, pool, depth=rnd.choice([1, 2, 2, 3, 4]))
+        if rnd.random() < 0.08:  # discriminators need not be unique: every node is still reported once, in place
+            nodes = [n for n, _ in walk(ahb)]
+            if len(nodes) >= 2:
+                donor, receiver = rnd.sample(nodes, 2)
+                receiver["d"] = donor["d"]
     else:
         ahb = gen_validation_ahb(rnd, pool, n_roots=(1, 1), depth=rnd.choice([0, 1, 2]), n_segments=(1, 3))
         if rnd.random() < 0.4:  # a bare segment
@@ -182,9 +187,15 @@ def _judge(request, outcome, evaluations, verdict):
         elif got_ids != expected_ids:
             clause = "order:not-document-order"
         else:
-            kinds = {n["d"]: n["t"] for n, _ in walk(op["ahb"])}
-            diff = next((d for (d, s), (_, e) in zip(got["ok"], expected["ok"]) if s != e), None)
-            clause = f"status:{ {'g': 'group', 's': 'segment', 'f': 'freetext', 'p': 'pool'}[kinds[diff]] }"
+            kinds = [n["t"] for n, parent in walk(op["ahb"])]
+            position = next((i for i, ((_, s), (_, e)) in enumerate(zip(got["ok"], expected["ok"])) if s != e), 0)
+            # the i-th reported node is the i-th *visited* node; find its kind by walking the model's visit order
+            visited = [n for n, _ in walk(op["ahb"])]
+            by_discriminator = {}
+            for node in visited:
+                by_discriminator.setdefault(node["d"], node["t"])
+            kind = by_discriminator.get(expected["ok"][position][0], kinds[0])
+            clause = f"status:{ {'g': 'group', 's': 'segment', 'f': 'freetext', 'p': 'pool'}[kind] }"
             if not op["soll"]:
                 clause += ":soll_is_required=False"
         detail = f"reported {dumps(got['ok'])[:700]} but the reference model gives {dumps(expected['ok'])[:700]}"
